@@ -36,6 +36,7 @@ func main() {
 		"stall": runStallParent, "stall-child": runStallChild,
 		"sessions": runSessionsParent,
 		"auth":     runAuthParent, "auth-child": runAuthChild,
+		"discv": runDiscvParent, "discv-child": runDiscvChild,
 	})
 }
 
@@ -113,17 +114,20 @@ func runHandlerParent(rng *rand.Rand, n int, out *Out, args []string) {
 	}
 }
 
-// sessions = the suites syncpeer (n sessions), stall (4 rounds, 12 from n = 100 on) and peers (12 scenarios, 240 from
-// n = 100 on) side by side: all of them spend most of their time waiting for the node's own timers (5 s handshake / hash
+// sessions = the suites syncpeer (n sessions), stall (4 rounds, 12 from n = 100 on), peers (12 scenarios, 240 from
+// n = 100 on) and discv (16 sessions, 320 from n = 100 on) side by side: all of them spend most of their time waiting for the node's own timers (5 s handshake / hash
 // request, 9 s block request, 4 s synchronisation cycle). Each of them can be run alone under its own name.
 func runSessionsParent(rng *rand.Rand, n int, out *Out, args []string) {
 	r1, r2, r3 := rand.New(rand.NewSource(rng.Int63())), rand.New(rand.NewSource(rng.Int63())), rand.New(rand.NewSource(rng.Int63()))
-	rounds, scen := 4, 12
+	r4 := rand.New(rand.NewSource(rng.Int63()))
+	rounds, scen, disc := 4, 12, 16
 	if n >= 100 {
-		rounds, scen = 12, 240
+		rounds, scen, disc = 12, 240, 320
 	}
 	var wg sync.WaitGroup
-	wg.Add(3)
+	wg.Add(4)
+	// discv (discv.go): the live discovery endpoint; its sessions wait for the reply timeouts of the discovery protocol
+	go func() { defer wg.Done(); runDiscvParent(r4, disc, out, nil) }()
 	go func() { defer wg.Done(); runSyncParent(r1, n, out, nil) }()
 	go func() { defer wg.Done(); runStallParent(r2, rounds, out, nil) }()
 	go func() { defer wg.Done(); runPeersParent(r3, scen, out, nil) }()
